@@ -540,12 +540,16 @@ def check_unpack_function(ctx, fa, oracle, kind, int_type):
             c = try_fold(t.slice)
             if isinstance(c, str):
                 names = [c]
+            elif isinstance(t.slice, ast.IfExp) and isinstance(try_fold(t.slice.body), str) and isinstance(try_fold(t.slice.orelse), str):
+                names = [try_fold(t.slice.body), try_fold(t.slice.orelse)]
             elif isinstance(t.slice, ast.Name):
                 vals = []
                 for d, v in fa.defs(t.slice):
                     cv = try_fold(v) if v is not None else None
                     if isinstance(cv, str):
                         vals.append(cv)
+                    elif isinstance(v, ast.IfExp) and isinstance(try_fold(v.body), str) and isinstance(try_fold(v.orelse), str):
+                        vals.extend([try_fold(v.body), try_fold(v.orelse)])
                     else:
                         vals = None
                         break
@@ -884,8 +888,9 @@ def run(ctx):
 
     # C06.EXCL
     excl = None
+    from ..normal import canon_expr
     for g in fa_spec.guards():
-        t = g.test
+        t = canon_expr(g.test)               # `not (line is None or index is None)` reads as `line is not None and index is not None`
         if isinstance(t, ast.BoolOp) and isinstance(t.op, ast.And):
             names = set()
             for v in t.values:
